@@ -39,6 +39,7 @@ struct ghost_t {
   int seq_started[D_SEQ + 1]; /* SEQ: how often the handler block beginning with element n was started in this step */
   int seq_loop[D_SEQ + 1];    /* SEQ: <foreach> n: 0 not running, 1 initialised (foreach_next is due), 2 exhausted (foreach_done is due) */
 #endif
+  int pre_ok;           /* the step started from a pristine context or from one satisfying Inv */
   int ans_m[D_T + 1];   /* what is_matched answers for transition t during this step (chosen up front, any value) */
   int ans_c[D_T + 1];   /* what is_true answers for the condition text of transition t (one answer per text) */
 } G;
@@ -118,6 +119,7 @@ static int stub_raise_done_event(const uscxml_ctx *ctx, const uscxml_state *stat
   __CPROVER_assert(state >= &USCXML_MACHINE.states[0] && state < &USCXML_MACHINE.states[0] + NS, "C04.callback: raise_done_event receives a state of the machine");
   if (state >= &USCXML_MACHINE.states[0] && state < &USCXML_MACHINE.states[0] + NS) {
     int idx = (int)(state - &USCXML_MACHINE.states[0]);
+    __CPROVER_assert(!G.pre_ok || !sp_bit(G.done, idx), "C04.done: a done event is raised at most once per state and step");
     G.done[idx >> 3] = (unsigned char)(G.done[idx >> 3] | (1u << (idx & 7)));
   }
   return nondet_err();
@@ -308,6 +310,7 @@ static void setup_ctx(void) {
   for (int k = 0; k < USCXML_MAX_NR_STATES_BYTES; k++) { G.xl[k] = 0; G.el[k] = 0; }
   for (int k = 0; k < USCXML_MAX_NR_TRANS_BYTES; k++) G.tl[k] = 0;
   G.last_tsrc = 0;
+  G.pre_ok = 0;
   for (int k = 0; k < USCXML_MAX_NR_STATES_BYTES; k++) G.il[k] = 0;
 #if D_SEQ > 0
   for (int k = 0; k <= D_SEQ; k++) G.seq_loop[k] = 0;
@@ -328,6 +331,7 @@ void h_step(void) {
   /* TRANSITION_FOUND is transient: set and cleared inside one selection pass, never visible between steps */
   int running = (g_ctx.flags & USCXML_CTX_INITIALIZED) && !(g_ctx.flags & (USCXML_CTX_FINISHED | USCXML_CTX_TOP_LEVEL_FINAL | USCXML_CTX_TRANSITION_FOUND)) && inv(&g_ctx);
   g_pre_inv = pristine || running;
+  G.pre_ok = g_pre_inv;
   g_pre = g_ctx;
   for (int t = 0; t <= D_T; t++) { wit_ans_m[t] = G.ans_m[t]; wit_ans_c[t] = G.ans_c[t]; }
   int pre_ans_m[D_T + 1], pre_ans_c[D_T + 1];
